@@ -54,7 +54,7 @@ TTCS = [None, None, {}, {'type': 'function', 'name': 'Enabled', 'arguments': []}
         {'type': 'function', 'name': 'Bernoulli', 'arguments': [0.5]},
         {'type': 'function', 'name': 'EasyAndCertain', 'arguments': []}]
 NODE_EXTRAS = [{}, {}, {'reward': 10}, {'pos': {'x': 1.5, 'y': -2}}, {'labels': ['a', 'b']},
-               {'note': 'True'}]
+               {'note': 'True'}, {'80': 'http', 'years': {'2024': 1, '-1': 0}}]
 TAG_POOL = ['hidden', 'suppress', 'debug']
 
 
@@ -135,6 +135,16 @@ def _f(x):
     return None if x is None else float(x)
 
 
+def typed_keys(x):
+    """JSON-able view in which the *type* of every dict key survives ('80' vs 80)."""
+    if isinstance(x, dict):
+        return {'<dict>': sorted(([type(k).__name__, str(k), typed_keys(v)] for k, v in x.items()),
+                                 key=lambda t: (t[0], t[1]))}
+    if isinstance(x, (list, tuple)):
+        return [typed_keys(v) for v in x]
+    return x
+
+
 def observe_graph(g):
     nodes = []
     for n in g.nodes:
@@ -145,7 +155,7 @@ def observe_graph(g):
             'existence_status': n.existence_status, 'is_viable': n.is_viable,
             'is_necessary': n.is_necessary,
             'tags': list(n.tags) if isinstance(n.tags, (list, tuple)) else n.tags,
-            'mitre': n.mitre_info, 'extras': n.extras,
+            'mitre': n.mitre_info, 'extras': typed_keys(n.extras),
             'children': sorted(c.id for c in n.children),
             'parents': sorted(p.id for p in n.parents),
             'compromised_by': sorted(a.id for a in n.compromised_by)})
@@ -814,6 +824,8 @@ class GraphWorld(BaseWorld):
         if 'existence_status' in op:
             kw['existence_status'] = op['existence_status']
         node = self.AttackGraphNode(**kw)
+        if op.get('peek_name', True):
+            call(lambda: node.full_name)        # a caller may look at the name before adding the node
         nid = op.get('node_id')
         in_use = nid is not None and nid in s.ref.ids()
         o = call(s.g.add_node, node) if nid is None else call(s.g.add_node, node, node_id=nid)
